@@ -114,7 +114,7 @@ Definition async_start (m : machine) : M :=
                enter Async false m [0] (Some init_event) ;;
                settle (m_max_iter m) Async false m) s with
         | (s', None) => (s', None)
-        | (s', Some e) => (with_status Stopped (s_output s') s', Some e)
+        | (s', Some e) => (with_pending [] (s_seq s') (with_status Stopped (s_output s') s'), Some e)   (* releases what the partial entry armed *)
         end
     | _ => (s, None)
     end.
